@@ -58,4 +58,5 @@ d4b85b4 C08
 09f03f7 C16
 f8434c2 C13
 460c1b6 C19
+02ce248 C16
 LIST
